@@ -339,7 +339,8 @@ def c17(tier, seed):
         corpora = [('one N=2 nothrow-move', suites.one(2), suites.drv(2, elem=suites.NT), 500, 1),
                    ('two N=2,2 POCMA+POCS unequal', suites.two(2, 2, **suites.traits_mc(0, 1, 1, 0)), suites.drv(2, 2, elem=suites.TM, POCMA=1, POCS=1), 400, 0),
                    ('order len<=3 N=1,3', suites.order(3), suites.drv(1, 3, elem=suites.TRIV), 400, 0),
-                   ('one N=2 trivially copyable, construct-only allocator', suites.one(2), suites.drv(2, elem=suites.TRIV, CONSTRUCT=2), 400, 0)]
+                   ('one N=2 trivially copyable, construct-only allocator', suites.one(2), suites.drv(2, elem=suites.TRIV, CONSTRUCT=2), 400, 0),
+                   ('two N=2,2 element with a throwing ADL swap', suites.two(2, 2, **suites.traits_mc(0, 0, 0, 0)), suites.drv(2, 2, elem=suites.SW), 300, 1)]
     else:
         builds = [('g++', 'c++17', [])] + [('g++', s, []) for s in ('c++11', 'c++14', 'c++20', 'c++23')] + \
                  [('clang++', s, []) for s in ('c++11', 'c++14', 'c++17', 'c++20', 'c++2b')] + \
@@ -355,7 +356,9 @@ def c17(tier, seed):
                    ('max_size()=5 N=2', suites.mx(2, 5), suites.drv(2, elem=suites.NT, MAXSZ=5), 2000, 0),
                    ('one N=2 trivially copyable, construct-only allocator', suites.one(2), suites.drv(2, elem=suites.TRIV, CONSTRUCT=2), 2000, 0),
                    ('one N=0 int, construct-only allocator', suites.one(0), suites.drv(0, elem=suites.INT, CONSTRUCT=2), 2000, 0),
-                   ('one N=2 nothrow-move, destroy-only allocator', suites.one(2), suites.drv(2, elem=suites.NT, CONSTRUCT=3), 2000, 1)]
+                   ('one N=2 nothrow-move, destroy-only allocator', suites.one(2), suites.drv(2, elem=suites.NT, CONSTRUCT=3), 2000, 1),
+                   ('two N=2,2 element with a throwing ADL swap', suites.two(2, 2, **suites.traits_mc(0, 0, 0, 0)), suites.drv(2, 2, elem=suites.SW), 3000, 1),
+                   ('two N=2,2 element with a throwing ADL swap, POCS', suites.two(2, 2, **suites.traits_mc(0, 0, 1, 0)), suites.drv(2, 2, elem=suites.SW, POCS=1), 2000, 1)]
     wd = os.path.join(P.CACHE, 'c17', P.sha('c17', tier, seed, P.header_sha(), P.spec_sha(), P.file_sha(os.path.join(P.HARNESS, 'driver.cpp'))))
     resf = os.path.join(wd, 'result.json')
     with P.Lock(wd):
